@@ -69,6 +69,8 @@ TREES.update({
     "nested-groups": [(1, 2, [[(2, 2, [[(1, 3, [[], [(0, 1, [[(1, 1, [[], []])]])], []])], []])], []])],
     # five groups of different kinds under one parent
     "five-groups": [(1, 1, _leafs(2)), (1, 2, _leafs(3)), (2, 3, _leafs(3)), (1, 5, _leafs(5)), (3, 4, _leafs(4))],
+    # 37 children under 3 non-leaf features: a ratio above ten that needs rounding (12.333... -> 12.33)
+    "ratio-above-ten": [(1, 1, [[(1, 3, _leafs(17))]]), (0, 1, [[(2, 5, _leafs(18))]])],
     # nine levels, an or-group at the bottom
     "deep-9": _chain(8, [(1, 2, [[], []])]),
 })
